@@ -762,7 +762,7 @@ def c_name_case(case: dict) -> str:
     return f"((({NAME_KINDS[pos]}, {cstr(t)}), {cbool(py)}), {cbool(not case['oracle_fail'])})"
 
 
-NAME_FIND = {1: "F20b", 2: "F20c", 3: "F20h", 4: "F20a", 5: "F20k"}
+NAME_FIND = {3: "F20h", 5: "F20k"}   # bits 1, 2, 4 were F20b, F20c, F20a: fixed in /repo, no longer attributable
 
 
 def pstarmap(fn: Callable, items: list[tuple]) -> list:
